@@ -263,3 +263,40 @@ def chem_flags_dense(k, m, pat):
         if not all(float(dx[j]) == 0.0 for j in range(3 * ng) if int(cg.chemostats[j])):
             return False
     return True
+
+
+def simulate_stochastic_map(k, opt, mode):
+    """stochastic engines through a coarse-graining map (real build): with the identity map (mode 0) or a pairing map (mode 1), an
+    IMMOBILE species (D = 0, no reaction) keeps its initial per-cell amounts in every sample of the un-coarse-grained trajectory
+    (identity) / its per-group totals (pairing), a mobile one keeps its grand total, amounts stay non-negative integers - the
+    diffusion channels of the graph engines carry each species' own coefficient"""
+    from strengths import simulate
+    from vt.glue import real_engine
+    w, h, d = [(6, 1, 1), (3, 2, 1), (2, 2, 2)][k]
+    n = w * h * d
+    option = ["tauleap", "gillespie"][opt]
+    net = RDNetwork(species=[Species("A", D=0), Species("B", D=5.0), Species("C", D=0.5)], reactions=[])
+    st = [0.0] * (3 * n)
+    st[n // 2] = 60.0
+    st[n // 2 - 1] = 60.0
+    st[n + n // 2] = 80.0
+    st[2 * n] = 40.0
+    sysm = RDSystem(net, RDGridSpace(w=w, h=h, d=d, cell_vol=1.0), state=st)
+    cg = list(range(n)) if mode == 0 else [i // 2 for i in range(n)]
+    for seed in (1, 2, 3):
+        out = simulate(sysm, [0.0, 0.05, 0.1], engine=real_engine(option), cgmap=cg, time_step=0.001, rng_seed=seed, init_state_processing="none")
+        x = [float(v) for v in out.data.value]
+        ns = len(out.t.value)
+        for smp in range(ns):
+            blk = x[smp * 3 * n:(smp + 1) * 3 * n]
+            a, b, c = blk[:n], blk[n:2 * n], blk[2 * n:]
+            if mode == 0:
+                if a != st[:n] or any(v < 0 or v != int(v) for v in blk):
+                    return False
+            else:
+                for g in range(max(cg) + 1):
+                    if abs(sum(a[i] for i in range(n) if cg[i] == g) - sum(st[i] for i in range(n) if cg[i] == g)) > 1e-9:
+                        return False
+            if abs(sum(b) - 80.0) > 1e-9 or abs(sum(c) - 40.0) > 1e-9:
+                return False
+    return True
